@@ -177,7 +177,7 @@ pub enum PlutusDataEnum {
 }
 
 #[wasm_bindgen]
-#[derive(Clone, Debug, Ord, PartialOrd)]
+#[derive(Clone, Debug)]
 pub struct PlutusData {
     pub(crate) datum: PlutusDataEnum,
     // We should always preserve the original datums when deserialized as this is NOT canonicized
@@ -198,6 +198,20 @@ impl Hash for PlutusData {
 }
 
 impl std::cmp::Eq for PlutusData {}
+
+// datums are ordered (and de-duplicated in sets) by the bytes they are written as: a datum built
+// through a constructor and the same datum read from those very bytes are one datum
+impl Ord for PlutusData {
+    fn cmp(&self, other: &Self) -> std::cmp::Ordering {
+        self.to_bytes().cmp(&other.to_bytes())
+    }
+}
+
+impl PartialOrd for PlutusData {
+    fn partial_cmp(&self, other: &Self) -> Option<std::cmp::Ordering> {
+        Some(self.cmp(other))
+    }
+}
 
 to_from_bytes!(PlutusData);
 
